@@ -60,3 +60,69 @@ package files
 //@   ensures [C04 C05] absolute: strings.HasPrefix(result, "/")
 //@   ensures [C04 C05] one-trailing-slash: strings.HasSuffix(result, "/") && !strings.HasSuffix(result, "//")
 //@   ensures [C04 C05] clean: !strings.Contains(result, "//") && !strings.Contains(result, "/../") && !strings.Contains(result, "/./")
+//
+//@ spec func declMode(fi *ContentFileInfo) fs.FileMode {
+//@     if fi == nil { return 0 }
+//@     return fi.Mode
+//@ }
+//@ spec func declMTime(fi *ContentFileInfo) time.Time {
+//@     if fi == nil { return time.Time{} }
+//@     return fi.MTime
+//@ }
+//@ spec func declSize(fi *ContentFileInfo) int64 {
+//@     if fi == nil { return 0 }
+//@     return fi.Size
+//@ }
+//@ spec func declOwner(fi *ContentFileInfo) string {
+//@     if fi == nil || fi.Owner == "" { return "root" }
+//@     return fi.Owner
+//@ }
+//@ spec func declGroup(fi *ContentFileInfo) string {
+//@     if fi == nil || fi.Group == "" { return "root" }
+//@     return fi.Group
+//@ }
+//@ spec func typeOrFile(t string) string {
+//@     if t == "" { return "file" }
+//@     return t
+//@ }
+//@ spec func modeBeforeStat(fi *ContentFileInfo, t string) fs.FileMode {
+//@     if declMode(fi) != 0 { return declMode(fi) }
+//@     if isDirType(typeOrFile(t)) { return 0o755 }
+//@     return 0
+//@ }
+//@ spec func mtimeBeforeStat(fi *ContentFileInfo, mtime time.Time) time.Time {
+//@     if !declMTime(fi).IsZero() { return declMTime(fi) }
+//@     return mtime
+//@ }
+//@ spec func statted(fi *ContentFileInfo, t, src string, mtime time.Time) bool {
+//@     complete := !mtimeBeforeStat(fi, mtime).IsZero() && modeBeforeStat(fi, t) != 0 && (declSize(fi) != 0 || isDirType(typeOrFile(t)))
+//@     return src != "" && !complete && fsExists(src)
+//@ }
+//@ spec func defaultedMode(fi *ContentFileInfo, t, src string, umask fs.FileMode, mtime time.Time) fs.FileMode {
+//@     if modeBeforeStat(fi, t) != 0 { return modeBeforeStat(fi, t) }
+//@     if statted(fi, t, src, mtime) { return fsMode(src) &^ umask }
+//@     return 0
+//@ }
+//@ spec func defaultedMTime(fi *ContentFileInfo, t, src string, mtime time.Time) time.Time {
+//@     if !mtimeBeforeStat(fi, mtime).IsZero() { return mtimeBeforeStat(fi, mtime) }
+//@     if statted(fi, t, src, mtime) && !fsMTime(src).IsZero() { return fsMTime(src) }
+//@     return mtime
+//@ }
+//
+//@ func (c *Content) WithFileInfoDefaults(umask fs.FileMode, mtime time.Time) (cc *Content)
+//@   requires c != nil
+//@   ensures [C11 C12 C01] fresh-copy: cc != nil && fresh(cc) && allocated(cc)
+//@   ensures [C11 C12 C01] fresh-fileinfo: cc.FileInfo != nil && fresh(cc.FileInfo) && allocated(cc.FileInfo)
+//@   ensures [C01 C05] identity: cc.Source == old(c.Source) && cc.Destination == old(c.Destination) && cc.Packager == old(c.Packager) && cc.Type == typeOrFile(old(c.Type))
+//@   ensures [C01] owner-group: cc.FileInfo.Owner == old(declOwner(c.FileInfo)) && cc.FileInfo.Group == old(declGroup(c.FileInfo))
+//@   ensures [C01] mode: cc.FileInfo.Mode == old(defaultedMode(c.FileInfo, c.Type, c.Source, umask, mtime))
+//@   ensures [C01 C07] mtime: cc.FileInfo.MTime == old(defaultedMTime(c.FileInfo, c.Type, c.Source, mtime))
+//@   ensures [C07] mtime-set-when-package-mtime-set: implies(!mtime.IsZero(), !cc.FileInfo.MTime.IsZero())
+//@   ensures [C01 C03] size: cc.FileInfo.Size == old(sizeAfter(c.FileInfo, c.Type, c.Source, mtime))
+//@   ensures [C06 C07] no-events: flag("failed") == old(flag("failed")) && flag("clockRead") == old(flag("clockRead")) && flag("envRead") == old(flag("envRead"))
+//@   modifies [C11 C12]
+//
+//@ spec func sizeAfter(fi *ContentFileInfo, t, src string, mtime time.Time) int64 {
+//@     if statted(fi, t, src, mtime) { return fsSize(src) }
+//@     return declSize(fi)
+//@ }
